@@ -167,6 +167,33 @@ pub fn slg_order_signature(a: &str, a_subsumed: bool, b: &str, b_subsumed: bool)
     if (nonlinear_unique_vs_unknown(a, b) && b_subsumed) || (nonlinear_unique_vs_unknown(b, a) && a_subsumed) {
         return Some("slg:trivial-answer-green-cut-order");
     }
+    // ... and the exact pair {Unique S, definite guidance = S with the sharing between its variables lost} needs no H5
+    // snapshot either, for the same reason as the exact pair above
+    let erase = |t: &str| -> String {
+        let mut out = String::new();
+        let b = t.as_bytes();
+        let mut i = 0;
+        while i < b.len() {
+            if b[i] == b'^' {
+                out.push('^');
+                i += 1;
+                while i < b.len() && (b[i].is_ascii_digit() || b[i] == b'.') {
+                    i += 1;
+                }
+            } else {
+                out.push(b[i] as char);
+                i += 1;
+            }
+        }
+        out
+    };
+    let sharing_lost = |u: &str, d: &str| match (unique_parts(u), definite_parts(d)) {
+        (Some((_, su)), Some((_, sd))) => repeats_var(&su) && !repeats_var(&sd) && erase(&su) == erase(&sd),
+        _ => false,
+    };
+    if sharing_lost(a, b) || sharing_lost(b, a) {
+        return Some("slg:trivial-answer-green-cut-order");
+    }
     if nonlinear_definite(a) || nonlinear_definite(b) {
         // F20: guidance with a repeated variable is declared final before an invalidating answer is seen
         return Some("slg:may-invalidate-nonlinear-guidance");
